@@ -13,6 +13,8 @@ func (v *Value) UnmarshalNBT(tagType byte, r nbt.DecoderReader) error {
 	v.tag = tagType
 	var buf [8]byte
 	switch tagType {
+	default:
+		return fmt.Errorf("unknown Tag %#02x", tagType)
 	case nbt.TagEnd:
 	case nbt.TagByte:
 		n, err := r.ReadByte()
@@ -44,8 +46,11 @@ func (v *Value) UnmarshalNBT(tagType byte, r nbt.DecoderReader) error {
 		if err != nil {
 			return err
 		}
+		if n < 0 {
+			return errors.New("byte array len less than 0")
+		}
 
-		v.data = append(v.data[:0], make([]byte, 4+n)...)
+		v.data = append(v.data[:0], make([]byte, 4+int(n))...)
 		binary.BigEndian.PutUint32(v.data, uint32(n))
 
 		_, err = io.ReadFull(r, v.data[4:])
@@ -58,8 +63,11 @@ func (v *Value) UnmarshalNBT(tagType byte, r nbt.DecoderReader) error {
 		if err != nil {
 			return err
 		}
+		if n < 0 {
+			return errors.New("string length less than 0")
+		}
 
-		v.data = append(v.data[:0], make([]byte, 2+n)...)
+		v.data = append(v.data[:0], make([]byte, 2+int(n))...)
 		binary.BigEndian.PutUint16(v.data, uint16(n))
 
 		_, err = io.ReadFull(r, v.data[2:])
@@ -76,6 +84,12 @@ func (v *Value) UnmarshalNBT(tagType byte, r nbt.DecoderReader) error {
 		length, err := readInt32(r)
 		if err != nil {
 			return err
+		}
+		if length < 0 {
+			return errors.New("list length less than 0")
+		}
+		if t == nbt.TagEnd && length > 0 {
+			return nbt.ErrEND
 		}
 
 		v.list = v.list[:0]
@@ -114,8 +128,11 @@ func (v *Value) UnmarshalNBT(tagType byte, r nbt.DecoderReader) error {
 		if err != nil {
 			return err
 		}
+		if n < 0 {
+			return errors.New("int array len less than 0")
+		}
 
-		v.data = append(v.data[:0], make([]byte, 4+n*4)...)
+		v.data = append(v.data[:0], make([]byte, 4+int(n)*4)...)
 		binary.BigEndian.PutUint32(v.data, uint32(n))
 
 		_, err = io.ReadFull(r, v.data[4:])
@@ -128,8 +145,11 @@ func (v *Value) UnmarshalNBT(tagType byte, r nbt.DecoderReader) error {
 		if err != nil {
 			return err
 		}
+		if n < 0 {
+			return errors.New("long array len less than 0")
+		}
 
-		v.data = append(v.data[:0], make([]byte, 4+n*8)...)
+		v.data = append(v.data[:0], make([]byte, 4+int(n)*8)...)
 		binary.BigEndian.PutUint32(v.data, uint32(n))
 
 		_, err = io.ReadFull(r, v.data[4:])
